@@ -1,5 +1,6 @@
 import TFV.Properties.Tree
 import TFV.Properties.TreeCR
+import TFV.Properties.Src.TreeIdx
 #print axioms TFV.Tree.C09_scan_flat
 #print axioms TFV.Tree.C09_size_flat
 #print axioms TFV.Tree.C09_endSub
@@ -19,3 +20,6 @@ import TFV.Properties.TreeCR
 #print axioms TFV.Tree.C09_rebind
 #print axioms TFV.Tree.C09_eqTree
 #print axioms TFV.Tree.C09_common_region
+#print axioms TFV.SrcTie.C09_src_find_end_subtree
+#print axioms TFV.SrcTie.C09_src_find_id_args
+#print axioms TFV.SrcTie.C09_src_first_difference
